@@ -37,7 +37,10 @@ func quickConfigs() []Config {
 	}
 	d := cfg("mh", false, 8, 48, 48)
 	d.MapDesc = true
-	return append(cs, d)
+	cs = append(cs, d)
+	// exact fit: a one-entry record list is 22 bytes, a record with a 1-byte
+	// value 12 bytes, so records end exactly on the file-size limits
+	return append(cs, cfg("mh", false, 8, 22, 12))
 }
 
 func thoroughConfigs() []Config {
@@ -70,6 +73,7 @@ func thoroughConfigs() []Config {
 	d32 := cfg("mh", false, 8, 48, 48)
 	d32.DigestLen = 32
 	cs = append(cs, d32)
+	cs = append(cs, cfg("mh", false, 8, 22, 12), cfg("mh", false, 12, 22, 12), cfg("mh", false, 8, 44, 24), cfg("cid", false, 8, 22, bigFile))
 	return cs
 }
 
@@ -107,7 +111,7 @@ func c01Scenarios(tier string) []*SeqScenario {
 	var scs []*SeqScenario
 	if tier == "quick" {
 		alpha := append(putOps([]int{0, 1, 3, 4}, []int{0, 1, 2}), removeOps([]int{0, 1, 3, 4})...)
-		alpha = append(alpha, Op{Kind: OpPut, K: 0, V: 4}, Op{Kind: OpPut, K: 1, V: 4}, Op{Kind: OpFlush}, Op{Kind: OpReads})
+		alpha = append(alpha, Op{Kind: OpPut, K: 0, V: 4}, Op{Kind: OpPut, K: 1, V: 4}, Op{Kind: OpPut, K: 5, V: 1}, Op{Kind: OpFlush}, Op{Kind: OpReads})
 		for _, c := range quickConfigs() {
 			scs = append(scs, &SeqScenario{Prop: "C01", Name: "c01-quick", Cfg: c, Alphabet: alpha, Depth: 4, Nontrivial: sharedBucketNontrivial})
 		}
@@ -117,11 +121,11 @@ func c01Scenarios(tier string) []*SeqScenario {
 	// product, plus depth 4 on the full universe with single reads and
 	// iteration as alphabet members and the extra values.
 	alpha := append(putOps([]int{0, 1, 3, 4}, []int{0, 1, 2}), removeOps([]int{0, 1, 3, 4})...)
-	alpha = append(alpha, Op{Kind: OpFlush}, Op{Kind: OpReads})
+	alpha = append(alpha, Op{Kind: OpPut, K: 5, V: 1}, Op{Kind: OpFlush}, Op{Kind: OpReads})
 	for _, c := range thoroughConfigs() {
 		scs = append(scs, &SeqScenario{Prop: "C01", Name: "c01-deep", Cfg: c, Alphabet: alpha, Depth: 5, Nontrivial: sharedBucketNontrivial})
 	}
-	wide := append(putOps([]int{0, 1, 2, 3, 4}, []int{0, 1, 2, 3, 4, 5}), removeOps([]int{0, 1, 2, 3, 4})...)
+	wide := append(putOps([]int{0, 1, 2, 3, 4, 5}, []int{0, 1, 2, 3, 4, 5}), removeOps([]int{0, 1, 2, 3, 4, 5})...)
 	wide = append(wide, Op{Kind: OpFlush}, Op{Kind: OpReads}, Op{Kind: OpIterate},
 		Op{Kind: OpGet, K: 0}, Op{Kind: OpGet, K: 1}, Op{Kind: OpHas, K: 2}, Op{Kind: OpGetSize, K: 3})
 	for _, c := range quickConfigs() {
@@ -228,8 +232,13 @@ func ledgerFinal(w *World, c *Collector) *Violation {
 	}
 	gcActionCounters(w, c)
 	if w.mh() != nil {
-		if v := w.Step(Op{Kind: OpPriGC, A: 101}); v != nil {
-			return v
+		// A cycle that finds a hand-over file left by an interrupted cycle
+		// processes that one first; the entries flushed since are handed over
+		// by the next cycle. Two complete cycles present everything.
+		for i := 0; i < 2; i++ {
+			if v := w.Step(Op{Kind: OpPriGC, A: 101}); v != nil {
+				return v
+			}
 		}
 		if v := w.ledger.Check(w, true); v != nil {
 			return v
@@ -272,6 +281,15 @@ func gcPreambles() [][]Op {
 		{P(0, 1), F, P(1, 1), F, P(4, 1), F, {Kind: OpRemove, K: 0}, F, P(0, 2), F},
 		{P(0, 1), P(0, 2)},
 		{P(0, 1), P(1, 1), F, P(0, 2), {Kind: OpRemove, K: 1}},
+		// three single-entry record lists of one bucket: with a 48-byte
+		// index file limit the third starts in the last 4 bytes before it
+		{P(4, 1), F, P(4, 2), F, P(4, 1), F},
+		// three live records in three files (1-byte limits): a middle file
+		// can die while the first stays live
+		{P(0, 1), P(1, 1), P(4, 1), F},
+		// index file 0 = [R1 bucket of K0][R2 bucket of K4][R3 bucket of K5];
+		// R2 superseded and already marked deleted by one GC cycle
+		{P(0, 1), F, P(4, 1), F, P(5, 1), F, P(4, 2), F, {Kind: OpIdxGC, B: true}},
 	}
 }
 
@@ -280,7 +298,7 @@ func gcAlphabet(tier string) []Op {
 	alpha = append(alpha, removeOps([]int{0, 1})...)
 	alpha = append(alpha, Op{Kind: OpFlush},
 		Op{Kind: OpIdxGC, B: true}, Op{Kind: OpIdxGC, B: false},
-		Op{Kind: OpPriGC, A: 0}, Op{Kind: OpPriGC, A: 50})
+		Op{Kind: OpPriGC, A: 0}, Op{Kind: OpPriGC, A: 50}, Op{Kind: OpPriGC, A: 50, V: 1})
 	if tier != "quick" {
 		alpha = append(alpha, Op{Kind: OpPriGC, A: 85}, Op{Kind: OpPriGC, A: 101},
 			Op{Kind: OpIdxGC, B: true, A: 2}, Op{Kind: OpIdxGC, B: false, A: 3},
@@ -475,6 +493,11 @@ func c02Scenarios(tier string) []*SeqScenario {
 			scs = append(scs, &SeqScenario{Prop: "C02", Name: "c02-pre", Cfg: c, Preamble: pre, Alphabet: alpha, Depth: depth - 2, Allow: allow,
 				Final: c02Final, Oracles: []string{"map", "diff"}, Nontrivial: nontriv})
 		}
+		if c.IdxFS == 48 {
+			pres := gcPreambles()
+			scs = append(scs, &SeqScenario{Prop: "C02", Name: "c02-merge", Cfg: c, Preamble: pres[len(pres)-1], Alphabet: alpha, Depth: depth - 1, Allow: allow,
+				Final: c02Final, Oracles: []string{"map", "diff"}, Nontrivial: nontriv})
+		}
 	}
 	return scs
 }
@@ -491,8 +514,9 @@ func c03Scenarios(prop, tier string) []*CrashScenario {
 		cfg("mh", false, 8, 48, 48),
 		cfg("cid", false, 8, 48, bigFile),
 	}
-	pres := gcPreambles()
+	pres := gcPreambles()[:5]
 	if tier != "quick" {
+		pres = gcPreambles()
 		depth = 4
 		cfgs = append(cfgs, cfg("mh", false, 8, bigFile, bigFile), cfg("mh", false, 12, 48, 1), cfg("mh", true, 8, 48, 48))
 		alpha = append(alpha, Op{Kind: OpIdxGC, B: false}, Op{Kind: OpReopen, A: 1})
@@ -808,7 +832,7 @@ func runC09Mismatch(c *Collector) {
 		return
 	}
 	for _, p := range []string{"mh", "cid"} {
-		for _, which := range []string{"index", "primary", "both"} {
+		for _, which := range []string{"index", "primary", "both", "index+bits"} {
 			if p == "cid" && which != "index" {
 				continue
 			}
@@ -842,8 +866,11 @@ func runC09Mismatch(c *Collector) {
 			}
 			before := w.FS.Digest()
 			bad := *w
-			if which == "index" || which == "both" {
+			if which == "index" || which == "both" || which == "index+bits" {
 				bad.Cfg.IdxFS = 64
+			}
+			if which == "index+bits" {
+				bad.Cfg.Bits = 12
 			}
 			if which == "primary" || which == "both" {
 				bad.Cfg.PriFS = 64
@@ -858,7 +885,7 @@ func runC09Mismatch(c *Collector) {
 			var ie types.ErrIndexWrongFileSize
 			var pe types.ErrPrimaryWrongFileSize
 			switch {
-			case which == "index" && !errors.As(err, &ie):
+			case (which == "index" || which == "index+bits") && !errors.As(err, &ie):
 				report(viol("wrong-return", "opening with a different index file size failed with %q, want ErrIndexWrongFileSize", err))
 				continue
 			case which == "primary" && !errors.As(err, &pe):
@@ -1044,7 +1071,9 @@ func c10Check(w *World, want map[string][]byte) *Violation {
 }
 
 func runC10Seq(c *Collector) {
-	sizes := []uint32{1, 40, 64, bigFile}
+	// 24 = two 12-byte records, 36 = three, 44 = two 22-byte record lists:
+	// chunks that end exactly on the limit
+	sizes := []uint32{1, 24, 36, 40, 44, 64, bigFile}
 	cuts := []int{0, 3}
 	unit := 0
 	for hi, hist := range legacyHistories(c.job.Tier) {
@@ -1056,7 +1085,7 @@ func runC10Seq(c *Collector) {
 						if unit%c.job.NShards != c.job.Shard {
 							continue
 						}
-						if c.job.Tier == "quick" && ifs != pfs && (hi+int(ifs)+int(pfs))%3 != 0 {
+						if c.job.Tier == "quick" && ifs != pfs && (hi+int(ifs)+int(pfs))%2 != 0 {
 							continue
 						}
 						c.res.Evaluations++
